@@ -179,6 +179,14 @@ def cases_for(tier, rng):
                 cases.append(dict(prog=[Try([Raise(cls, bd)], [([n_] if n_ else [], [T('['), V('error_type'), T('|'), V('error_value'), T(']')])
                                                                for n_ in names], None)] + tail, src=src(), K=0, fk=[]))
             cases.append(dict(prog=[T('a'), Raise(cls, bd)], src=src(), K=0, fk=[]))
+    # 11. two classes that bear the same name but have different bases, raised one after the other inside the same try tag (a loop,
+    #     a second rendering): each time the handler is chosen for the class that was raised
+    for order in (('ErrorA', 'ErrorB'), ('ErrorB', 'ErrorA'), ('ErrorA', 'ErrorB', 'ErrorA'), ('ErrorB', 'ErrorB', 'ErrorA')):
+        items = lst('EL', [obj('E%d' % i_, boom=fn('BOOM%d' % i_, plain('never'), beh=c_)) for i_, c_ in enumerate(order)])
+        for names in (['OSError'], ['OSError', 'Error'], ['ValueError', 'OSError'], ['Error'], ['LookupError']):
+            inner = mk_try([T('b'), V('boom'), T('never')], names, True)
+            prog = [In(N('el'), [T('('), Try([inner], [([], [T('out:'), V('error_type')])], None), T(')')])] + tail
+            cases.append(dict(prog=prog, src=sources(kw=dict(NS, el=items)), K=0, fk=[]))
     # 5. sub-template: return ends only the sub-template's call
     sub = tmpl('sub', [T('S1'), Try([Return(N('rv'))], [([], [T('never')])], None), T('S2')])
     ns = dict(NS, sub=sub)
